@@ -6,7 +6,8 @@ import (
 	"github.com/goatcms/goatcore/filesystem/filespace/memfs"
 )
 
-// KNOWN FINDING (C07, recorded, not repaired): pending removes are invisible to reads.
+// C07: pending removes must be visible to reads. Failed on the tree before fix 54c6d63 (the
+// former known finding); passes on the repaired tree.
 func TestC07RemovedStillVisible(t *testing.T) {
 	remote, _ := memfs.NewFilespace()
 	remote.WriteFile("a.txt", []byte("A"), 0777)
